@@ -525,6 +525,8 @@ def run_c02(prop, tier):
         from lib import catalog
         req = "R:nosv:" + catalog.load_events()["nosv"]["version"]
         mjobs = [list(t) for k in (1, 2, 3) for t in itertools.product(("as", "af", "e0", "f", req), repeat=k) if "as" in t or "af" in t]
+        # metadata much larger than usual: a 6000-character attribute, 300 more CPUs
+        mjobs += [list(t) for k in (1, 2) for t in itertools.product(("ab", "ac", "af", "as"), repeat=k) if "ab" in t or "ac" in t]
 
         def one_meta(prog):
             cd = os.path.join(base, "m%d" % os.getpid())
